@@ -8,6 +8,8 @@ import (
 	"sort"
 	"strings"
 
+	"golang.org/x/tools/go/packages"
+
 	"csverify/core"
 )
 
@@ -175,8 +177,14 @@ func checkC14(r *core.Result) {
 							okRead = true
 						}
 					}
+					// fd.scratch[:0]: the slice is emptied at the point of the read
+					if se, ok := p.(*ast.SliceExpr); ok && se.X == ast.Expr(rd.expr) && se.Low == nil && se.High != nil && !se.Slice3 {
+						if tv := info.Types[se.High]; tv.Value != nil && tv.Value.ExactString() == "0" {
+							okRead = true
+						}
+					}
 					if !okRead {
-						return "scratch slice re-sliced to [:0] before use", false, fmt.Sprintf("scratch slice %s is read at %s other than as sliceValue's buffer / cap()", k.field, prog.Pos(rd.pos))
+						return "scratch slice re-sliced to [:0] before use", false, fmt.Sprintf("scratch slice %s is read at %s other than as sliceValue's buffer, re-sliced to [:0], or in cap()", k.field, prog.Pos(rd.pos))
 					}
 				}
 			}
@@ -318,6 +326,7 @@ func checkC14(r *core.Result) {
 	}
 	r.Floor("scratch-slice stores", nScratch, 8)
 	checkLazyInheritance(r, prog, lp)
+	checkNilReceivers(r, prog, lp)
 	// R7: who may release a result. close() is called only by Close() and by itself (through closers);
 	// in-package, Close() is called only on the error path of decodeWithPool (a result that was never
 	// handed out). Any other release of a result that may also sit in a parent's closers returns one
@@ -597,4 +606,65 @@ func flowsIntoClosers(info *types.Info, f *core.FuncInfo, obj types.Object) bool
 		return true
 	})
 	return found
+}
+
+// checkNilReceivers (R10): Decode returns (nil, nil) for an empty input, so a caller can hold a nil *DecodeResult
+// without having seen an error; GetFieldData can hand out nil field data the same way. Every exported method of
+// *DecodeResult therefore either starts with a nil test of its receiver or never reads through it.
+func checkNilReceivers(r *core.Result, prog *core.Program, lp *packages.Package) {
+	info := lp.TypesInfo
+	n := 0
+	for _, f := range core.Funcs(lp) {
+		if f.Decl == nil || f.Decl.Body == nil || f.Decl.Recv == nil || !strings.HasPrefix(f.Name, "(*DecodeResult).") || !ast.IsExported(f.Decl.Name.Name) {
+			continue
+		}
+		recv := recvObj(info, f.Decl)
+		if recv == nil {
+			continue
+		}
+		n++
+		// first use of the receiver through a field / index
+		var firstDeref token.Pos
+		ast.Inspect(f.Decl.Body, func(nn ast.Node) bool {
+			if se, ok := nn.(*ast.SelectorExpr); ok && !firstDeref.IsValid() {
+				if id, ok := se.X.(*ast.Ident); ok && info.Uses[id] == recv {
+					if _, isField := info.Uses[se.Sel].(*types.Var); isField {
+						firstDeref = se.Pos()
+					}
+				}
+			}
+			return true
+		})
+		guarded := !firstDeref.IsValid()
+		var nilTest func(e ast.Expr) bool
+		nilTest = func(e ast.Expr) bool {
+			switch x := e.(type) {
+			case *ast.ParenExpr:
+				return nilTest(x.X)
+			case *ast.BinaryExpr:
+				if x.Op == token.EQL && isNilIdentExpr(x.Y) {
+					if id, ok := x.X.(*ast.Ident); ok && info.Uses[id] == recv {
+						return true
+					}
+				}
+				if x.Op == token.LOR {
+					return nilTest(x.X) // r == nil || … (evaluated first)
+				}
+			}
+			return false
+		}
+		for _, st := range f.Decl.Body.List {
+			if firstDeref.IsValid() && st.Pos() > firstDeref {
+				break
+			}
+			if is, ok := st.(*ast.IfStmt); ok && is.Init == nil && nilTest(is.Cond) && len(is.Body.List) > 0 {
+				if _, isRet := is.Body.List[len(is.Body.List)-1].(*ast.ReturnStmt); isRet {
+					guarded = true
+				}
+			}
+		}
+		r.Ob("R10", f.Name+" tolerates a nil result", prog.Pos(f.Pos()), guarded,
+			"the method reads through its receiver without a nil test, but Decode returns (nil, nil) for an empty input: calling it on that result panics with a nil dereference")
+	}
+	r.Floor("exported methods of *DecodeResult", n, 5)
 }
